@@ -5,38 +5,6 @@ use crate::c10::*;
 
 /// Test generated for harness `c10::c10_w0_drivers_vec_n2` 
 ///
-/// Check for `assertion`: ""rolling2_apply_idx out: every output slot written before assume_init""
-///
-/// # Warning
-///
-/// Concrete playback tests combined with stubs or contracts is highly
-/// experimental, and subject to change.
-///
-/// The original harness has stubs which are not applied to this test.
-/// This may cause a mismatch of non-deterministic values if the stub
-/// creates any non-deterministic value.
-/// The execution path may also differ, which can be used to refine the stub
-/// logic.
-
-#[test]
-fn kani_concrete_playback_c10_w0_drivers_vec_n2_15618288425394513659() {
-    let concrete_vals: Vec<Vec<u8>> = vec![
-        // 0
-        vec![0, 0, 0, 0],
-        // 0
-        vec![0, 0, 0, 0],
-        // 0
-        vec![0, 0, 0, 0],
-        // 0
-        vec![0, 0, 0, 0],
-        // 8
-        vec![8],
-    ];
-    kani::concrete_playback_run(concrete_vals, c10_w0_drivers_vec_n2);
-}
-
-/// Test generated for harness `c10::c10_w0_drivers_vec_n2` 
-///
 /// Check for `assertion`: ""rolling_apply out: every output slot written before assume_init""
 ///
 /// # Warning
@@ -63,6 +31,38 @@ fn kani_concrete_playback_c10_w0_drivers_vec_n2_5876635645214271561() {
         vec![0, 0, 0, 0],
         // 5
         vec![5],
+    ];
+    kani::concrete_playback_run(concrete_vals, c10_w0_drivers_vec_n2);
+}
+
+/// Test generated for harness `c10::c10_w0_drivers_vec_n2` 
+///
+/// Check for `assertion`: ""rolling_apply_idx out: every output slot written before assume_init""
+///
+/// # Warning
+///
+/// Concrete playback tests combined with stubs or contracts is highly
+/// experimental, and subject to change.
+///
+/// The original harness has stubs which are not applied to this test.
+/// This may cause a mismatch of non-deterministic values if the stub
+/// creates any non-deterministic value.
+/// The execution path may also differ, which can be used to refine the stub
+/// logic.
+
+#[test]
+fn kani_concrete_playback_c10_w0_drivers_vec_n2_17685281110121349332() {
+    let concrete_vals: Vec<Vec<u8>> = vec![
+        // 0
+        vec![0, 0, 0, 0],
+        // 0
+        vec![0, 0, 0, 0],
+        // 0
+        vec![0, 0, 0, 0],
+        // 0
+        vec![0, 0, 0, 0],
+        // 6
+        vec![6],
     ];
     kani::concrete_playback_run(concrete_vals, c10_w0_drivers_vec_n2);
 }
@@ -133,7 +133,7 @@ fn kani_concrete_playback_c10_w0_drivers_vec_n2_7749402998110490899() {
 
 /// Test generated for harness `c10::c10_w0_drivers_vec_n2` 
 ///
-/// Check for `assertion`: ""rolling_apply_idx out: every output slot written before assume_init""
+/// Check for `assertion`: ""rolling_apply_idx returned: every output slot written before assume_init""
 ///
 /// # Warning
 ///
@@ -147,7 +147,7 @@ fn kani_concrete_playback_c10_w0_drivers_vec_n2_7749402998110490899() {
 /// logic.
 
 #[test]
-fn kani_concrete_playback_c10_w0_drivers_vec_n2_17685281110121349332() {
+fn kani_concrete_playback_c10_w0_drivers_vec_n2_4925370146422991580() {
     let concrete_vals: Vec<Vec<u8>> = vec![
         // 0
         vec![0, 0, 0, 0],
@@ -157,15 +157,15 @@ fn kani_concrete_playback_c10_w0_drivers_vec_n2_17685281110121349332() {
         vec![0, 0, 0, 0],
         // 0
         vec![0, 0, 0, 0],
-        // 6
-        vec![6],
+        // 1
+        vec![1],
     ];
     kani::concrete_playback_run(concrete_vals, c10_w0_drivers_vec_n2);
 }
 
 /// Test generated for harness `c10::c10_w0_drivers_vec_n2` 
 ///
-/// Check for `assertion`: ""rolling2_apply returned: every output slot written before assume_init""
+/// Check for `assertion`: ""rolling2_apply_idx out: every output slot written before assume_init""
 ///
 /// # Warning
 ///
@@ -179,7 +179,7 @@ fn kani_concrete_playback_c10_w0_drivers_vec_n2_17685281110121349332() {
 /// logic.
 
 #[test]
-fn kani_concrete_playback_c10_w0_drivers_vec_n2_6328232655236535697() {
+fn kani_concrete_playback_c10_w0_drivers_vec_n2_15618288425394513659() {
     let concrete_vals: Vec<Vec<u8>> = vec![
         // 0
         vec![0, 0, 0, 0],
@@ -189,8 +189,8 @@ fn kani_concrete_playback_c10_w0_drivers_vec_n2_6328232655236535697() {
         vec![0, 0, 0, 0],
         // 0
         vec![0, 0, 0, 0],
-        // 2
-        vec![2],
+        // 8
+        vec![8],
     ];
     kani::concrete_playback_run(concrete_vals, c10_w0_drivers_vec_n2);
 }
@@ -229,70 +229,6 @@ fn kani_concrete_playback_c10_w0_drivers_vec_n2_14342045093488830114() {
 
 /// Test generated for harness `c10::c10_w0_drivers_vec_n2` 
 ///
-/// Check for `assertion`: ""rolling2_apply_idx returned: every output slot written before assume_init""
-///
-/// # Warning
-///
-/// Concrete playback tests combined with stubs or contracts is highly
-/// experimental, and subject to change.
-///
-/// The original harness has stubs which are not applied to this test.
-/// This may cause a mismatch of non-deterministic values if the stub
-/// creates any non-deterministic value.
-/// The execution path may also differ, which can be used to refine the stub
-/// logic.
-
-#[test]
-fn kani_concrete_playback_c10_w0_drivers_vec_n2_12756378609986005659() {
-    let concrete_vals: Vec<Vec<u8>> = vec![
-        // 0
-        vec![0, 0, 0, 0],
-        // 0
-        vec![0, 0, 0, 0],
-        // 0
-        vec![0, 0, 0, 0],
-        // 0
-        vec![0, 0, 0, 0],
-        // 3
-        vec![3],
-    ];
-    kani::concrete_playback_run(concrete_vals, c10_w0_drivers_vec_n2);
-}
-
-/// Test generated for harness `c10::c10_w0_drivers_vec_n2` 
-///
-/// Check for `assertion`: ""rolling_apply_idx returned: every output slot written before assume_init""
-///
-/// # Warning
-///
-/// Concrete playback tests combined with stubs or contracts is highly
-/// experimental, and subject to change.
-///
-/// The original harness has stubs which are not applied to this test.
-/// This may cause a mismatch of non-deterministic values if the stub
-/// creates any non-deterministic value.
-/// The execution path may also differ, which can be used to refine the stub
-/// logic.
-
-#[test]
-fn kani_concrete_playback_c10_w0_drivers_vec_n2_4925370146422991580() {
-    let concrete_vals: Vec<Vec<u8>> = vec![
-        // 0
-        vec![0, 0, 0, 0],
-        // 0
-        vec![0, 0, 0, 0],
-        // 0
-        vec![0, 0, 0, 0],
-        // 0
-        vec![0, 0, 0, 0],
-        // 1
-        vec![1],
-    ];
-    kani::concrete_playback_run(concrete_vals, c10_w0_drivers_vec_n2);
-}
-
-/// Test generated for harness `c10::c10_w0_drivers_vec_n2` 
-///
 /// Check for `assertion`: ""rolling2_apply out: every output slot written before assume_init""
 ///
 /// # Warning
@@ -319,6 +255,70 @@ fn kani_concrete_playback_c10_w0_drivers_vec_n2_14770938938339209412() {
         vec![0, 0, 0, 0],
         // 7
         vec![7],
+    ];
+    kani::concrete_playback_run(concrete_vals, c10_w0_drivers_vec_n2);
+}
+
+/// Test generated for harness `c10::c10_w0_drivers_vec_n2` 
+///
+/// Check for `assertion`: ""rolling2_apply returned: every output slot written before assume_init""
+///
+/// # Warning
+///
+/// Concrete playback tests combined with stubs or contracts is highly
+/// experimental, and subject to change.
+///
+/// The original harness has stubs which are not applied to this test.
+/// This may cause a mismatch of non-deterministic values if the stub
+/// creates any non-deterministic value.
+/// The execution path may also differ, which can be used to refine the stub
+/// logic.
+
+#[test]
+fn kani_concrete_playback_c10_w0_drivers_vec_n2_6328232655236535697() {
+    let concrete_vals: Vec<Vec<u8>> = vec![
+        // 0
+        vec![0, 0, 0, 0],
+        // 0
+        vec![0, 0, 0, 0],
+        // 0
+        vec![0, 0, 0, 0],
+        // 0
+        vec![0, 0, 0, 0],
+        // 2
+        vec![2],
+    ];
+    kani::concrete_playback_run(concrete_vals, c10_w0_drivers_vec_n2);
+}
+
+/// Test generated for harness `c10::c10_w0_drivers_vec_n2` 
+///
+/// Check for `assertion`: ""rolling2_apply_idx returned: every output slot written before assume_init""
+///
+/// # Warning
+///
+/// Concrete playback tests combined with stubs or contracts is highly
+/// experimental, and subject to change.
+///
+/// The original harness has stubs which are not applied to this test.
+/// This may cause a mismatch of non-deterministic values if the stub
+/// creates any non-deterministic value.
+/// The execution path may also differ, which can be used to refine the stub
+/// logic.
+
+#[test]
+fn kani_concrete_playback_c10_w0_drivers_vec_n2_12756378609986005659() {
+    let concrete_vals: Vec<Vec<u8>> = vec![
+        // 0
+        vec![0, 0, 0, 0],
+        // 0
+        vec![0, 0, 0, 0],
+        // 0
+        vec![0, 0, 0, 0],
+        // 0
+        vec![0, 0, 0, 0],
+        // 3
+        vec![3],
     ];
     kani::concrete_playback_run(concrete_vals, c10_w0_drivers_vec_n2);
 }
